@@ -431,13 +431,21 @@ pub fn judge(sc: &Scenario) -> Judgement {
     let want_ids: Vec<i64> = want_resp.iter().map(|w| w.0).collect();
     if got_ids.len() < want_ids.len() && want_ids.starts_with(&got_ids) && rec.end.is_some() {
         // nothing reordered, duplicated or dropped in the middle: the process ended before the
-        // tail was written, which is C18's `complete-before-exit`
-        j.notes.push(format!(
-            "other-property=C18 the process ended (status {:?}) with {} of {} responses written",
-            rec.status(),
-            got_ids.len(),
-            want_ids.len()
-        ));
+        // tail was written. Sessions of this check end gracefully (shutdown/exit or end of input
+        // on a frame boundary), so under this load a request went unanswered - which is this
+        // property's business too (C18 sees the same clause only for its short sessions)
+        j.violate(
+            ID,
+            "all-answered",
+            "all-answered tail-lost".into(),
+            format!(
+                "the process ended (status {:?}) with {} of {} responses written: the last {} requests of the burst were never answered",
+                rec.status(),
+                got_ids.len(),
+                want_ids.len(),
+                want_ids.len() - got_ids.len()
+            ),
+        );
         return j;
     }
     if got_ids != want_ids {
